@@ -147,7 +147,7 @@ def unit_batch_indices_concrete(S):
     sizes = [(33, 5), (7, 3), (10, 4), (9, 9), (14, 5)]
     if S.tier == "thorough":
         sizes += [(int(rng.randint(2, 40)), int(rng.randint(1, 9))) for _ in range(12)]
-    bad = []
+    bad, unknown = [], []
     for (N, B) in sizes:
         if B > N:
             continue
@@ -166,10 +166,16 @@ def unit_batch_indices_concrete(S):
             for a in list(ctx.assumptions) + ax:
                 s.add(a)
             s.add(z3.Or(z3.Not(z3.Distinct(*elems)) if len(elems) > 1 else z3.BoolVal(False), *[z3.Or(e < 0, e >= N) for e in elems]))
-            ok = s.check() == z3.unsat
+            res = s.check()
+            if res == z3.unknown:     # a solver timeout is not a verdict
+                unknown.append((N, B))
+                continue
+            ok = res == z3.unsat
         if not ok:
             bad.append(dict(N=N, B=B, shape=[str(d) for d in out.shape]))
-    S.bounded_check("concrete-sizes/partition", not bad, bound=f"sizes {sizes}; permutation values symbolic (A-RNG bijection)", function=F_BI,
+    if unknown:
+        S.note(f"concrete sizes left open by the solver within 20 s (not counted): {unknown}")
+    S.bounded_check("concrete-sizes/partition", not bad, bound=f"sizes {[s_ for s_ in sizes if s_ not in unknown]}; permutation values symbolic (A-RNG bijection)", function=F_BI,
                     what="index groups have shape (floor(N/B), B), in range and pairwise distinct on concrete sizes", detail=bad, replay=native_partition_replay)
 
 
